@@ -17,6 +17,24 @@ def grid(vals, n):
   return np.array(list(itertools.product(vals, repeat=n)), dtype=np.float32).T
 
 
+_SPELL = [0]
+_NAMES = {1: "increasing", -1: "decreasing", 0: "none"}
+
+
+def spelled(mono):
+  """The same monotonicity vector in one of four spellings, in rotation: integers, strings, an integer first and
+  strings after it, a string first and integers after it (every spelling configures the same constraint)."""
+  k = _SPELL[0] % 4
+  _SPELL[0] += 1
+  if k == 0:
+    return list(mono)
+  if k == 1:
+    return [_NAMES[m] for m in mono]
+  if k == 2:
+    return [mono[0]] + [_NAMES[m] for m in mono[1:]]
+  return [_NAMES[mono[0]]] + list(mono[1:])
+
+
 def lin_constraint(c):
   from tensorflow_lattice.python import linear_layer
   n = len(c["mono"])
@@ -24,7 +42,7 @@ def lin_constraint(c):
   rng = [float(frac(r)) for r in c["range"]]
   use_bounds = bool(c["rdom"]) or c.get("bounds_all", False)
   return linear_layer.LinearConstraints(
-      monotonicities=list(c["mono"]), monotonic_dominances=z(c["mdom"]), range_dominances=z(c["rdom"]),
+      monotonicities=spelled(c["mono"]), monotonic_dominances=z(c["mdom"]), range_dominances=z(c["rdom"]),
       input_min=[c.get("lo", 0.0)] * n if use_bounds else None,
       input_max=[c.get("lo", 0.0) + r for r in rng] if use_bounds else None,
       normalization_order=c["norm"] or None)
@@ -57,7 +75,7 @@ def run_layer(tf, tfl, c, K):
     rng = [float(frac(r)) for r in c["range"]]
     use_bounds = bool(c["rdom"])
     layer = tfl.layers.Linear(
-        num_input_dims=n, units=units, monotonicities=list(c["mono"]), monotonic_dominances=z(c["mdom"]),
+        num_input_dims=n, units=units, monotonicities=spelled(c["mono"]), monotonic_dominances=z(c["mdom"]),
         range_dominances=z(c["rdom"]), input_min=[0.0] * n if use_bounds else None,
         input_max=rng if use_bounds else None, normalization_order=c["norm"] or None)
     layer.build((None, n) if units == 1 else (None, units, n))
